@@ -11,10 +11,10 @@ CONSTANTS
   Cat <- CatMC
   Txns = {1}
   RestoreWrongDirection = FALSE
-  PublishBeforeInit = TRUE
+  PublishBeforeInit = FALSE
   ContinueAfter405 = FALSE
   ApplyNoBackup = FALSE
-  NoReloadAfterRestore = FALSE
+  NoReloadAfterRestore = TRUE
   MetricsToDefaultPath = FALSE
 SPECIFICATION SpecMC
 INVARIANTS DiskAtomic BehavAtomic NeverHalf OneConfig
